@@ -257,7 +257,10 @@ LEVEL_TEXT = {
            "codes and reasons are the identity through every mapping arm; tied by capsule differential runs",
     "C03": "Lean 4 theorems: write-then-read returns session and payload byte for byte with the payload view starting "
            "right after the quarter id, distinct sends give distinct datagrams, received payloads are suffixes of the "
-           "QUIC datagram, size contract len <= max <-> not TooLarge, and max is absent or header-adjusted for every peer limit",
+           "QUIC datagram, size contract len <= max <-> not TooLarge, and max is absent or header-adjusted for every peer limit; "
+           "the driver's datagram path (worker loop + bounded queue) under every schedule keeps every arrived datagram in "
+           "exactly one place and in order, so what the application read is a prefix of the arrivals (nothing invented, "
+           "duplicated or merged)",
     "C16": "Lean 4 theorems: every registry value, the GREASE formula and all 99 static-table rows regenerated from the "
            "source equal the hand-transcribed specification; advertised settings, control stream, preambles, datagrams and "
            "field-section prefixes emitted by the model are read with the same meaning by the independent Spec decoders",
